@@ -14,12 +14,11 @@ Proof. unfold server_handle; destruct found, send_ok; cbn; split; try reflexivit
 Lemma process_down_iff found send_ok r :
   process_alive (server_handle found send_ok r) = false <-> found = true /\ exists s, r = RFatal s.
 Proof.
-  unfold server_handle; destruct found; cbn.
-  - destruct r; cbn; try destruct send_ok; cbn; split; intros H; try discriminate;
-      try (destruct H as [_ [s0 H]]; discriminate).
-    + split; [reflexivity | eexists; reflexivity].
-    + reflexivity.
-  - split; intros H; [discriminate | destruct H; discriminate].
+  unfold server_handle; destruct found; cbn [negb].
+  - destruct r; try destruct send_ok; cbn; split; intros H;
+      try discriminate; try (destruct H as [_ [s0 H]]; discriminate);
+      try (split; [reflexivity | eexists; reflexivity]); try reflexivity.
+  - cbn. split; intros H; [discriminate | destruct H; discriminate].
 Qed.
 
 Lemma only_unguarded_goroutine : filter unguarded goroutines = [(24, 481, false, true)%N].
@@ -138,12 +137,6 @@ Proof.
   destruct (ssh_loop _ _ _); [left|right]; reflexivity.
 Qed.
 
-(* outside the finding class - the payload's walk never leaves 1..3 bytes - no request is fatal *)
-Lemma ssh_payload_multiple_ok : forall n d acc,
-  wf d -> avail d < Z.of_nat n ->
-  (forall m l, ssh_loop m d acc <> OutOfFuel l \/ (m < n)%nat \/ True) -> True.
-Proof. trivial. Qed.
-
 (* ------------------------------------------------------------------ *)
 (* 3. tftp                                                              *)
 
@@ -191,7 +184,7 @@ Fixpoint wb (t : list mop) : bool :=
 Definition wb_open (t : list mop) : bool :=
   match t with MWEnd :: r => wb r | _ => false end.
 
-Lemma tftp_single_safe_aux : forall sched t w,
+Lemma tftp_single_safe_aux : forall (sched : list nat) (t : list mop) (w : bool),
   (if w then wb_open t else wb t) = true ->
   trun (mkT [t] w) sched <> TFatal.
 Proof.
@@ -208,7 +201,8 @@ Proof.
       * apply (IH t' true). destruct t' as [|o2 t2]; cbn in Hw; [discriminate|].
         destruct o2; try discriminate. cbn. exact Hw.
       * cbn in Hw. discriminate.
-  - destruct t; apply IH; exact Hw.
+  - assert (Hn : pop_thread j (@nil (list mop)) = None) by (destruct j; reflexivity).
+    rewrite Hn. apply IH; exact Hw.
 Qed.
 
 Lemma wb_app a b : wb a = true -> wb b = true -> wb (a ++ b) = true.
